@@ -11,7 +11,7 @@ import os
 from fractions import Fraction
 
 from vlib import qmode, smt
-from vlib.core import Ob, Check, DISCHARGED, FAILED, UNDECIDED, ERROR, GeneratorError
+from vlib.core import Ob, Check, DISCHARGED, FAILED, UNDECIDED, ERROR, GeneratorError, guarded
 from vlib.replay import attach
 
 REL = Fraction(1, 10 ** 12)
@@ -248,7 +248,7 @@ def run(tier, seed):
     chk.under_contract("src.norms:Slobodeckij.seminorm_h_1_2_pw")
     smt.close_pool()
     from bounded import corner_ref
-    corner_ref.run(chk, tier, seed)
+    guarded(chk, 'bounded part corner_ref.run', corner_ref.run, chk, tier, seed)
     return chk.finish()
 
 
